@@ -31,11 +31,18 @@ let run line =
     let al n = Z.leb n lim in
     let p = ref pb_new in
     let out = ref [] in
+    let unknown = ref false in
     (try
       List.iter (fun s ->
         (* X<k>: sprintbuf(p, "<%s|%d|%s>", p->buf, k, p->buf) — the arguments point into the buffer itself;
            the text is formatted from the contents as they are before the call (up to the first NUL) *)
         if s.[0] = 'T' then out := "threads 0" :: !out else
+        (* contents of more than 300000 bytes: the list-based model is not run on them (its extracted list functions are
+           not tail-recursive); the case is then judged by the direct byte-array oracle alone *)
+        let huge = (s.[0] = 'S' && (match String.split_on_char ',' (String.sub s 1 (String.length s - 1)) with
+                                     | [_; _; l] -> (try int_of_string l > 300000 with _ -> true) | _ -> false)) in
+        if huge then unknown := true;
+        if !unknown then out := "? ? ? ? ? ?" :: !out else
         let op =
           if s.[0] = 'X' then begin
             let k = String.sub s 1 (String.length s - 1) in
